@@ -64,6 +64,7 @@ type logEx struct {
 	respCE     string
 	respPlain  []byte // decoded response body
 	cutAt      int    // > 0: the origin closes its connection after this many bytes of the response (inside the body)
+	reqCutAt   int    // > 0: the client closes its connection after this many bytes of the request (inside the body)
 }
 
 type mpPart struct{ name, filename, ctype, value string }
@@ -350,6 +351,13 @@ func genLogEx(k *kernel.K, id, conn int, last bool, odd bool) *logEx {
 		if e.cutAt > 0 {
 			k.Probe("fault_origin_closes_inside_body")
 		}
+	} else if last && (r.Framing == "cl" || r.Framing == "chunked") && len(r.Body) > 1 && w.Chance(1, 10) {
+		// fault: the client goes away inside its request body
+		raw := r.Encode()
+		if h := bytes.Index(raw, []byte("\r\n\r\n")) + 4; h >= 4 && len(raw)-h > 12 {
+			e.reqCutAt = h + 6 + w.Draw(len(raw)-h-10)
+			k.Probe("fault_client_closes_inside_request_body")
+		}
 	}
 	return e
 }
@@ -483,7 +491,10 @@ func runLogPass(k *kernel.K, exs []*logEx, nconn int, logger string, opt map[str
 		clients = append(clients, c)
 		for _, e := range exs {
 			if e.conn == ci {
-				c.Add(e.req)
+				it := c.Add(e.req)
+				if e.reqCutAt > 0 {
+					it.Raw, it.CloseAfter = it.Raw[:e.reqCutAt], true
+				}
 			}
 		}
 	}
@@ -613,6 +624,23 @@ func runLog(k *kernel.K, focus string) {
 	if focus == "C15" {
 		for _, e := range exs {
 			desc := fmt.Sprintf("exchange #%d (%s %s, request body %s/%s %dB ce=%q trailers=%d; response %d %s %dB ce=%q trailers=%d; logger %s %v, skip=%v, origin closes after %d bytes of the response (0: never))", e.id, e.req.Method, e.req.Target(), e.reqKind, e.req.Framing, len(e.req.Body), e.reqCE, len(e.req.Trailer), e.resp.Status, e.resp.Framing, len(e.resp.Body), e.respCE, len(e.resp.Trailer), logger, opt, e.skip, e.cutAt)
+			if e.reqCutAt > 0 {
+				// The client went away inside its request body. How much of the partial body reaches
+				// the origin depends on where the transport's buffer was flushed, which depends on
+				// segmentation; what must not differ is the head, and each side's body is a prefix of
+				// what the client sent.
+				a, b := plain.originReqs[e.id], logged.originReqs[e.id]
+				if a != nil && b != nil {
+					ha, hb := wire.HeaderMap(a.Header), wire.HeaderMap(b.Header)
+					for _, name := range sortedKeys(hb) {
+						if !sameValues(ha[name], hb[name]) {
+							k.Fail("C15.twin_request", map[string]string{"logger": logger, "aspect": "headers", "fault": "client_closes_inside_body"}, "%s: the client closed after %d bytes of its request; header %s of what the origin received: %q without logger, %q with", desc, e.reqCutAt, name, ha[name], hb[name])
+							break
+						}
+					}
+				}
+				continue
+			}
 			if asp, d := msgAspectDiff(plain.originReqs[e.id], logged.originReqs[e.id]); asp != "" {
 				k.Fail("C15.twin_request", map[string]string{"logger": logger, "aspect": asp}, "%s: the request the origin received differs from the unlogged twin: %s", desc, d)
 			}
@@ -779,6 +807,11 @@ func c16Check(k *kernel.K, exs []*logEx, p *logPass, opt map[string]bool) {
 	}
 	for _, e := range exs {
 		if e.skip {
+			continue
+		}
+		if e.reqCutAt > 0 {
+			// the client went away inside its request: the exchange never took place as planned
+			// (the origin's response does not exist); what its entry should hold is not stated
 			continue
 		}
 		desc := fmt.Sprintf("exchange #%d (%s %s, body %s/%s %dB ce=%q; response %d %s ct=%q ce=%q %dB; options %v)", e.id, e.req.Method, e.req.Target(), e.reqKind, e.req.Framing, len(e.req.Body), e.reqCE, e.resp.Status, e.resp.Framing, e.respCT, e.respCE, len(e.resp.Body), opt)
